@@ -108,6 +108,7 @@ structure DState where
   /-- searches whose remaining behaviour depends on the unspecified order of an unordered
       result (a member became unreadable): only checked loosely from then on -/
   tainted : List Nat := []
+  logMark : Nat := 0
   savedDescs : Option (List FieldDesc) := none
   deriving Inhabited
 
@@ -180,6 +181,42 @@ def lenReply (s : Search) (impl : String) : Reply :=
   match s.err with
   | none => { txt := s!"{s.fields.length} ok" }
   | some e => { txt := s!"- E:{e.print}", agree := some (impl.endsWith (" E:" ++ e.print)) }
+
+def printFsOp : FsOp → String
+  | .mkdir => "mk"
+  | .writeObj o => s!"w:{o.uuid}"
+  | .rmObj u => s!"r:{u}"
+  | .writeSchema _ => "ws"
+  | .rmSchema => "rs"
+
+/-- sort every maximal run of `w:`/`r:` tokens -/
+def normRuns : List String → List String → List String
+  | [], run => (run.toArray.qsort (· < ·)).toList
+  | t :: ts, run =>
+    if t.startsWith "w:" || t.startsWith "r:" then
+      match run with
+      | r :: _ => if (r.take 2).toString == (t.take 2).toString then normRuns ts (t :: run)
+                  else (run.toArray.qsort (· < ·)).toList ++ normRuns ts [t]
+      | [] => normRuns ts [t]
+    else (run.toArray.qsort (· < ·)).toList ++ t :: normRuns ts []
+
+def normFs (s : String) : List String := normRuns ((s.splitOn " ").filter (· != "")) []
+
+def sortStrs (l : List String) : List String := (l.toArray.qsort (· < ·)).toList
+
+/-- the oracle "index and files agree": for every field index, the multiset of indexed values is
+    the multiset of that field over all objects read through `All` -/
+def consistentOf (c : Coll) : Coll × String :=
+  match c.schema with
+  | (c, .ok l) =>
+    match c.all with
+    | (c, .ok os, _) =>
+      let ok := l.index.fields.all (fun fi =>
+        sortStrs (fi.idx.map (fun e => e.1.print)) == sortStrs (os.map (fun o => (o.field fi.pos).print)))
+      (c, toString ok)
+    | (c, _, _) => (c, "false")
+  | (c, .err e) => (c, "E:" ++ e.print)
+  | (c, .panic) => (c, "PANIC")
 
 def parseObjs (ts : List String) : Option (List Obj) := ts.mapM parseObj
 
@@ -440,6 +477,15 @@ def DState.exec (d : DState) (op : String) (args : List String) (impl : String) 
       match d.c.disk.schema with
       | some img => pure ({ d with savedDescs := d.savedDescs <|> some img.descs, c := setDescs (edit img.descs) }, { txt := "ok" })
       | none => pure (d, { txt := "ok" })
+  | "fsops", [] =>
+    let delta := d.c.log.drop d.logMark
+    let txt := " ".intercalate (delta.map printFsOp)
+    -- runs of object writes / removals come out in Go map order in flushes and bulk deletions:
+    -- compared as sets, run by run
+    pure ({ d with logMark := d.c.log.length }, { txt := txt, agree := some (normFs txt == normFs impl) })
+  | "consistent", [] =>
+    let (c, txt) := consistentOf d.c
+    pure ({ d with c := c }, { txt := txt })
   | "rmschema", [] => pure ({ d with c := { d.c with disk := d.c.disk.apply .rmSchema } }, { txt := "ok" })
   | "ls", [] =>
     let us := (d.c.disk.files.keys.toArray.qsort (· < ·)).toList
@@ -455,6 +501,19 @@ def DState.exec (d : DState) (op : String) (args : List String) (impl : String) 
 def DState.line (d : DState) (line : String) : DState × String :=
   let line := line.trimAscii.toString
   if line.isEmpty || line.startsWith "#" then (d, "=") else
+  if line.startsWith "crash at=" then
+    -- the process died during a call, after `j` of its directory mutations
+    match (line.drop 9).toString.splitOn " " with
+    | j :: op :: args =>
+      match j.toNat?, d.exec op args "" with
+      | some j, some (d', _) =>
+        let delta := (d'.c.log.drop d.c.log.length).take j
+        let c : Coll := { d.c with disk := d.c.disk.applyAll delta, log := d.c.log ++ delta, mem := none, cache := [], pending := [] }
+        ({ d with c := c, searches := [], logMark := c.log.length }, "=")
+      | _, _ => (d, "? cannot parse crash line")
+    | _ => (d, "? cannot parse crash line")
+  else
+  let line := if line.endsWith " =>" then line ++ " " else line     -- empty result
   match line.splitOn " => " with
   | [call, impl] =>
     match call.splitOn " " with
